@@ -963,6 +963,9 @@ func (a *act) defaultLoopFrames(li *loopInfo, st *State) []string {
 						bad["Cell!"+typeName(elem)] = true
 					}
 				}
+			case *ssa.Send:
+				et := x.Chan.Type().Underlying().(*types.Chan).Elem()
+				bad["ChanSent!"+typeName(et)], bad["ChanLen"], bad["ChanClosed"] = true, true, true
 			case *ssa.MapUpdate:
 				mt := x.Map.Type().Underlying().(*types.Map)
 				has, val, ln := a.mapHeaps(mt)
